@@ -442,6 +442,13 @@ Definition p2_entry_ok (r w e : list fdt) (p : fdt * (bool * bool) * (bool * boo
 Definition p2_ok (r w e : list fdt) (l : list (fdt * (bool * bool) * (bool * bool))) : bool :=
   forallb (p2_entry_ok r w e) l.
 
+(* what the closed buffers still report as their length *)
+Definition buf_left (a : answer) (x : chan_st) : nat :=
+  match a with ABufLen n => Nat.min n (buf x) | _ => 0 end.
+(* which channels maintenance() marks in this poll turn *)
+Definition maint_of (a : answer) : bool * bool :=
+  match a with AMaint x y => (x, y) | _ => (false, false) end.
+
 Definition exec (g : cfg) (t : tid) (i : instr) (a : answer) (s : state) : result :=
   let me := getth s t in
   match i with
@@ -449,9 +456,8 @@ Definition exec (g : cfg) (t : tid) (i : instr) (a : answer) (s : state) : resul
   | IPoll =>
     if map_empty s then Norm s [] [LLoopExit]
     else
-      let '(mA, mB) := match a with AMaint x y => (x, y) | _ => (false, false) end in
-      let sA := setc s A (maint (chA s) (mA && lst_in_map s)) in
-      let s1 := setc sA B (maint (chB sA) (mB && lst_in_map s)) in
+      let sA := setc s A (maint (chA s) (fst (maint_of a) && lst_in_map s)) in
+      let s1 := setc sA B (maint (chB sA) (snd (maint_of a) && lst_in_map s)) in
       let r := asked_r g s1 in
       let w := asked_w s1 in
       (* poll: `if [] == r == w == e: time.sleep(timeout); return` is the empty select answer *)
@@ -632,8 +638,7 @@ Definition exec (g : cfg) (t : tid) (i : instr) (a : answer) (s : state) : resul
   | IHClose c => Norm s (hclose_body c) [LHClose t c]
   | ICloseBufs c =>
     let x := getc s c in
-    let left := match a with ABufLen n => Nat.min n (buf x) | _ => 0 end in
-    let x1 := upd_bufs x true 0 left (wire x) in
+    let x1 := upd_bufs x true 0 (buf_left a x) (wire x) in
     Norm (setc s c (upd_conn x1 false)) [] [LBufsClosed t c]
   | INotifyO c =>
     let x := getc s c in
